@@ -57,16 +57,41 @@ def sc_co64_never_cleared(eng, fid, fn, it, ob):
     return in_new >= 1, "new() stores Some(..); %d later store(s) through self, all Some(..)" % through_self
 
 
+HIST_COUNTERS = {("StszBox", "sample_count"), ("SttsEntry", "sample_count"), ("CttsEntry", "sample_count"), ("Mp4TrackWriter", "chunk_samples"), ("Mp4TrackWriter", "sample_id")}
+_FX = {}
+
+
+def hist_counter(fid, ob):
+    """`counter + 1` where the counter is read from one of the per-sample counter fields (identified by struct and field, not by spelling)"""
+    d = ob.get("detail") or {}
+    one = (d.get("b") or {}).get("iv") == [1, 1] or (d.get("a") or {}).get("iv") == [1, 1]
+    fx = _FX.get("fx")
+    if not one or fx is None:
+        return False
+    return panicfree.operand_field(fx, fid, ob, "a") in HIST_COUNTERS or panicfree.operand_field(fx, fid, ob, "b") in HIST_COUNTERS
+
+
+def hist_duration(fid, ob):
+    d = ob.get("detail") or {}
+    fx = _FX.get("fx")
+    if fx is None:
+        return False
+    for x, y in (("a", "b"), ("b", "a")):
+        iv = (d.get(y) or {}).get("iv") or [None, None]
+        if panicfree.operand_field(fx, fid, ob, x) == ("MdhdBox", "duration") and iv[0] is not None and iv[0] >= 0 and iv[1] <= 0xFFFFFFFF:
+            return True
+    return False
+
+
 ACCEPTED = [
     {"match": (lambda fid, fn, ob, key: "::value|ratio:to_integer|" in key and key.startswith("FixedPoint")), "side": sc_ratio_denominators,
      "reason": "fixed-point denominators are the non-zero constants 0x100 / 0x10000"},
     {"match": (lambda fid, fn, ob, key: "|unwrap_opt:unwrap|Option::as_ref(self.trak.mdia.minf.stbl.co64)" in key or "|unwrap_opt:unwrap|Option::as_mut(self.trak.mdia.minf.stbl.co64)" in key),
      "side": sc_co64_never_cleared, "reason": "the track writer's co64 table is created in new() and never cleared"},
-    {"match": (lambda fid, fn, ob, key: key.startswith("Mp4TrackWriter::") and "|Overflow(Add)|" in key and key.split("|")[2] in (
-        "entry.sample_count, 1", "self.trak.mdia.minf.stbl.stsz.sample_count, 1", "self.chunk_samples, 1", "self.sample_id, 1")),
-     "side": sc_trusted("A-HIST"), "reason": "A-HIST: per-track sample counters stay below 2^32 (fewer than 2^32 - 1 samples are written to one track)"},
-    {"match": K("Mp4TrackWriter::update_durations|Overflow(Add)|self.trak.mdia.mdhd.duration, dur as u64"), "side": sc_trusted("A-HIST"),
-     "reason": "A-HIST: sum of fewer than 2^32 durations, each below 2^32, is below 2^64"},
+    {"match": (lambda fid, fn, ob, key: key.split("|")[0].startswith("Mp4TrackWriter::") and "|Overflow(Add)|" in key and hist_counter(fid, ob)),
+     "side": sc_trusted("A-HIST"), "reason": "A-HIST: per-track sample counters (stsz.sample_count, run counts of stts / ctts, chunk_samples, sample_id) advance by 1 per sample and stay below 2^32 (fewer than 2^32 - 1 samples are written to one track)"},
+    {"match": (lambda fid, fn, ob, key: key.split("|")[0].startswith("Mp4TrackWriter::update_durations") and "|Overflow(Add)|" in key and hist_duration(fid, ob)), "side": sc_trusted("A-HIST"),
+     "reason": "A-HIST: mdhd.duration is the sum of fewer than 2^32 durations, each below 2^32: below 2^64"},
     {"match": K("Mp4TrackWriter::update_sample_to_chunk|Overflow(Sub)|self.sample_id, self.chunk_samples"), "side": sc_trusted("invariant chunk_samples <= sample_id"),
      "reason": "chunk_samples counts samples of the open chunk including the current one, sample_id is the number of the current sample: chunk_samples <= sample_id"},
     {"match": K("Mp4TrackWriter::update_sample_to_chunk|Overflow(Add)|Sub(self.sample_id, self.chunk_samples).0, 1"), "side": sc_trusted("A-HIST"),
@@ -77,6 +102,7 @@ ACCEPTED = [
 
 
 def run(fx, chk, tier):
+    _FX["fx"] = fx
     chk.rule("PF.assert", "every MIR Assert terminator reachable from the muxer API (write_start, add_track, write_sample, write_end, into_writer, TrackConfig::from) is discharged")
     chk.rule("PF.call", "every call to a panicking callee reachable from the muxer API is discharged")
     chk.rule("PF.recursion", "no recursion in the muxer closure")
